@@ -4,7 +4,8 @@
 #
 # case line :  acks n b has_t max api | lp(cache triples) | events...
 # events    :  1 topic choice cnt bytes | 2 kind | 3 sid | 4 | 5 topic err haspart | 6 | 7 lid ok kind
-#              8 tid | 9 r | 10 <value> | 11 <-1 | value>
+#              8 tid | 9 r | 10 <value> | 11 <-1 | value> | 12 <value> (a result that omits payloads: outside the
+#              client contract) | 13 b (handing a request to the client raises from now on / no longer: F-C01-5)
 # value     :  0 | 1 lp(resps) | 2 lp(resps) lp(failed) | 3 kind | 4 kind        resps: (t p err off)*  failed: (t p kind)*
 # trace     :  per event:  nout, then per output lp(ints), outputs sorted inside a step
 # outputs   :  [1 attempt magic npl (t p nm mids..)*] [2 tid k kind] [3 tid] [4 topics..] [5 lid topic] [6]
@@ -235,6 +236,7 @@ class StubClient(object):
         self.request = None   # (Deferred, [(t, p)]) outstanding produce request
         self.version_d = None
         self.cancel_value = None
+        self.broken = False   # send_produce_request raises synchronously (event 13)
 
     # -- metadata cache (client.py:274-301, 328-332)
     def metadata_error_for_topic(self, topic):
@@ -264,6 +266,8 @@ class StubClient(object):
 
     def send_produce_request(self, payloads, acks=1, timeout=1000, fail_on_error=True, callback=None):
         from twisted.internet.defer import Deferred
+        if self.broken:
+            raise RuntimeError("scripted: handing the produce request to the client raises")
         self.run.saw_produce(payloads, acks, fail_on_error)
 
         def canceller(dd):
@@ -303,6 +307,7 @@ class ImplRun(object):
         self.raw = []            # per event: the outputs in the order the implementation produced them
         self.snaps = []          # per event: observable state AFTER the event (see snapshot())
         self.applied = []        # per event: a scripted client result was delivered to the producer by this event
+        self.dishonest_at = None # index of the first event outside the honest environment (applied 12, or 13 1)
         api = {0: None, 1: 0, 2: "table"}[cfg["api"]]
         if api == "table":
             from afkak.common import ApiVersion
@@ -534,6 +539,22 @@ class ImplRun(object):
             return not is_kafka_kind(v[1])
         return False
 
+    def value_omit_ok(self, v):
+        """Model.Producer.omit_ok: answered and failed payloads are distinct payloads of the request, not all of them"""
+        if self.client.request is None or self.cfg["acks"] == 0:
+            return False
+        cur = sorted((TOPICS.index(t), p) for (t, p) in self.client.request[1])
+        if v[0] == "resp":
+            r, f = [(t, p) for (t, p, _e, _o) in v[1]], []
+        elif v[0] == "failed":
+            r, f = [(t, p) for (t, p, _e, _o) in v[1]], [(t, p) for (t, p, _k) in v[2]]
+            if not f:
+                return False
+        else:
+            return False
+        both = r + f
+        return len(set(both)) == len(both) and set(both) <= set(cur) and not set(cur) <= set(both)
+
     # -- events
     def apply(self, ev):
         """ev: python-level event tuple; appends the model event and the step outputs"""
@@ -658,6 +679,23 @@ class ImplRun(object):
                 c.request = None
                 self.result_applied = True
                 self.fire_value(d, v)
+            return mev
+        if op == "resultomit":
+            v = ev[1]
+            self.cur_event = mev = [12] + self.value_ints(v)
+            if c.request is not None and not c.request[0].called and self.value_omit_ok(v):
+                d = c.request[0]
+                c.request = None
+                self.result_applied = True
+                if self.dishonest_at is None:
+                    self.dishonest_at = len(self.events)
+                self.fire_value(d, v)
+            return mev
+        if op == "broken":
+            self.cur_event = mev = [13, 1 if ev[1] else 0]
+            c.broken = bool(ev[1])
+            if ev[1] and self.dishonest_at is None:
+                self.dishonest_at = len(self.events)
             return mev
         if op == "stop":
             v = ev[1]
@@ -833,6 +871,20 @@ def gen_event(rnd, run, stopped):
         opts.append((34, lambda: ("result", gen_value(rnd, run))))
     else:
         opts.append((0.8, lambda: ("result", rnd.choice([("empty", None), ("kafka", K_KUNAVAIL), ("other", K_RUNTIME), ("resp", [(0, 0, 0, 1)])]))))
+    if req and len(run.client.request[1]) >= 2 and cfg["acks"] != 0 and cfg.get("dishonest", True):
+        def om():
+            cur = sorted((TOPICS.index(t), p) for (t, p) in run.client.request[1])
+            keep = rnd.sample(cur, rnd.randint(1, len(cur) - 1))
+            if rnd.random() < 0.7:
+                return ("resultomit", ("resp", [(t, p, 0 if rnd.random() < 0.7 else rnd.choice(ERRS), rnd.randint(0, 99)) for (t, p) in keep]))
+            k = rnd.randint(1, len(keep))
+            return ("resultomit", ("failed", [(t, p, 0, rnd.randint(0, 99)) for (t, p) in keep[k:]], [(t, p, K_CONNLOST) for (t, p) in keep[:k]]))
+        opts.append((2.0, om))
+    if cfg.get("dishonest", True):
+        if getattr(run.client, "broken", False):
+            opts.append((3.0, lambda: ("broken", False)))
+        else:
+            opts.append((0.5, lambda: ("broken", True)))
     if not stopped:
         def st():
             if req and rnd.random() < 0.5:
